@@ -70,7 +70,7 @@ claim("C19", "K20 K19", "Bounded check (family under test: strings <= 2 bytes, l
 claim("C26", "K11", "Unbounded proof (loop contracts, any input length) that every output byte of toxml is XML-safe and every output byte of fixInvalidChars is printable, plus loop-free proofs that the unit appended per input byte is exactly the XML entity / octal escape the rules require.", _NOTE)
 claim("C23", "K13 K15", "Unbounded proof of isValidGlobPattern safety/termination and loop-free proof of isSameParameters; bounded checks (labelled) that matchglob equals glob semantics for short strings and that Suppression::isSuppressed equals the documented decision table with matchglob / PathMatch::match / macro lookup as arbitrary oracles.", _NOTE)
 claim("C24", "K15", "Proof on the per-suppression predicates of getUnmatched{Local,Global,Inline}Suppressions (loop bodies as regions): a matched suppression is never reported, inline/non-inline split, local/global disjoint; with isMatch's contract: once isMatch returned true the suppression is reported by none of them. Only this half of the property is claimed.", _NOTE)
-claim("C30", "K18", "Unbounded proof (loop contract) that the <valid>-expression gate isCompliantValidationExpression is memory-safe on every NUL-terminated string, terminates and rejects empty strings and a leading '.'; its language is bracketed by the documented grammar for short strings (bounded, labelled).", _NOTE)
+claim("C30", "K18 K33", "Unbounded proof (loop contract) that the <valid>-expression gate isCompliantValidationExpression is memory-safe on every NUL-terminated string, terminates and rejects empty strings and a leading '.'; its language is bracketed by the documented grammar for short strings (bounded, labelled); bounded check (lists of up to 3 items, all 64-bit bounds and values) that the token loop of Library::isIntArgValid accepts a constant exactly when it lies in a declared item. Library loading, isFloatArgValid and the checkers that report the finding are not verified.", _NOTE)
 claim("C33", "K24", "Unbounded proof of the interpreter leaves chrInFirstWord / firstWordEquals (loop contracts); bounded check per pattern word that the matcher generated by the real tools/matchcompiler.py equals the extracted Token::Match on symbolic token lists of 0..2 tokens (labelled bounded; seeded word sample in the quick tier, every word of lib/*.cpp in the thorough tier).", _NOTE)
 claim("C03", "K21 K04 K02", "Proof (loop-free regions, complete in all operands) that the verdict blocks of CheckCondition::comparison and checkCompareValueOutOfTypeRange only report a value the comparison has for every value of the non-constant operand under C's conversion rules; one recorded finding (signed variable against unsigned constant) is split off and reported as KNOWN-FINDING.", _NOTE)
 claim("C04", "K31", "Proof (loop-free regions) that the threshold decisions of checkTooBigBitwiseShift and checkIntegerOverflow report only where C leaves the operation undefined / the value outside the result type, with the value-flow lookups as arbitrary oracles; the shiftTooManyBitsSigned report is a recorded finding (KNOWN-FINDING). Whether the value is real is outside the claim.", _NOTE)
